@@ -2,6 +2,7 @@ import NutilsVerif.Proofs.C17Main
 import NutilsVerif.Proofs.C17Stable
 import NutilsVerif.Proofs.C17Intern
 import NutilsVerif.Proofs.C17Bind
+import NutilsVerif.Proofs.C17Header
 /-!
 # C17 — structural identity and hashing are injective and stable: property theorems
 
@@ -113,6 +114,22 @@ theorem cacheKey_injective (hlen : ∀ b, (H b).length = 20) (reg : Registry) (f
   · intro a ha; simp [fedKey, ha]
   · rw [emitL_eq_map, emitL_eq_map]; exact h2.2
 
+/-- `≈` on arrays is equality of shape, dtype and data: the formatted header `'2,3<f8'` determines shape and
+dtype, because `dtype.str` starts with a byte-order character (`dtypeOK`). -/
+theorem equiv_ndarray_fields {sh sh' : List Nat} {dt dt' d d' : Bytes}
+    (h : Equiv (.ndarray sh dt d) (.ndarray sh' dt' d')) (hd : dtypeOK dt = true) (hd' : dtypeOK dt' = true) :
+    sh = sh' ∧ dt = dt' ∧ d = d' := by
+  cases h with
+  | ndarray _ hh => exact ⟨(header_inj hd hd' hh).1, (header_inj hd hd' hh).2, rfl⟩
+
+/-- `≈` on `Immutable` instances is equality of class (module.qualname), version and `≈` of the arguments, when
+qualified names contain no colon. -/
+theorem equiv_immutable_fields {m m' : Bytes} {i i' : Int} {xs ys : List Value}
+    (h : Equiv (.immutable m i xs) (.immutable m' i' ys)) (hm : (58 : UInt8) ∉ m) (hm' : (58 : UInt8) ∉ m') :
+    m = m' ∧ i = i' ∧ EquivL xs ys := by
+  cases h with
+  | immutable ht hl => exact ⟨(immTag_inj hm hm' ht).1, (immTag_inj hm hm' ht).2, hl⟩
+
 /-! ## stability: "a value has the same hash however it was built" -/
 
 /-- `≈`-equal values have the same hash, for every `H` whatsoever.  Clause: dict / set / frozenset / dataclass
@@ -199,6 +216,18 @@ theorem intern_rebuilt_is_same {K : Type} [DecidableEq K] (evs₁ evs₂ : List 
   cases hi'
   have inv2 : IInv s₂ := (inv1.step (.call k)).run evs₂
   exact call_hit_of_inv inv2 (live_preserved_run hlive evs₂ halive)
+
+/-- The table identifies whatever its key function identifies: if two argument tuples `a b` (of any type `V`) have
+the same dictionary key, constructing `b` while the object built from `a` is alive returns *that* object.  In the
+real code the key is the argument tuple under Python `==`/`hash`, for which `1`, `1.0` and `True` (and `0.0`, `-0.0`)
+coincide although `nutils_hash` separates them: this is the model-level statement of the open finding
+`intern-key-python-equality` (see notes/C17.md). -/
+theorem intern_conflates_equal_keys {K V : Type} [DecidableEq K] (keyOf : V → K) (a b : V) (hk : keyOf a = keyOf b)
+    (evs : List (IEvent K)) (i : Nat) (h1 : (istep (irun IState.empty evs) (.call (keyOf a))).2 = some i) :
+    (istep (istep (irun IState.empty evs) (.call (keyOf a))).1 (.call (keyOf b))).2 = some i := by
+  have := intern_rebuilt_is_same evs [] (keyOf a) i h1 (by simp)
+  simp only [irun] at this
+  rw [← hk, this]
 
 /-- Identities are never reused: an object allocated later is different from every object that ever lived
 (so `is` comparisons in the harness against dead objects cannot be confused). -/
